@@ -116,6 +116,7 @@ class SubHarness(Harness):
         self.fault = fault
         self.source_ref = source_ref
         self.fns = {}
+        self.wrong_root = []
 
     def fn_for(self, ev):
         if ev not in self.fns:
@@ -124,6 +125,16 @@ class SubHarness(Harness):
 
     def resolver(self, _source, info, **args):
         ev = self.source_ref['source'].current
+        # "with that event as root value": what a resolver is told about the root value must be the event being mapped
+        src = self.source_ref['source']
+        # (a root field is resolved right when its event is mapped; deeper resolvers may belong to an earlier event whose
+        # abandoned siblings settle in the background, so for them any event emitted so far is acceptable)
+        if ev is not None and 0 <= ev < len(src.events):
+            if len(info.path.as_list()) == 1:
+                if info.root_value is not src.events[ev] or _source is not src.events[ev]:
+                    self.wrong_root.append((ev, repr(info.root_value)[:60], list(info.path.as_list())))
+            elif not any(info.root_value is e for e in src.events[:ev + 1]):
+                self.wrong_root.append((ev, repr(info.root_value)[:60], list(info.path.as_list())))
         self.value_fn = self.fn_for(ev)
         return super().resolver(_source, info, **args)
 
@@ -207,6 +218,24 @@ def run_stream(schema, doc, variables, seed, scenario, sched_seed, p_async, poli
     return run, sched, hz, source, out
 
 
+def root_response_key(doc):
+    """Response key of the single root field of the (first) subscription operation, looking through fragments."""
+    frags = {d.name.value: d for d in doc.definitions if d.kind == 'fragment_definition'}
+    op = next((d for d in doc.definitions if isinstance(d, OperationDefinitionNode)), None)
+
+    def first(ss, depth=0):
+        for sel in ss.selections:
+            if sel.kind == 'field':
+                return (sel.alias or sel.name).value
+            inner = sel.selection_set if sel.kind == 'inline_fragment' else getattr(frags.get(sel.name.value), 'selection_set', None)
+            if inner is not None and depth < 8:
+                k = first(inner, depth + 1)
+                if k is not None:
+                    return k
+        return None
+    return first(op.selection_set) if op is not None else None
+
+
 def judge(ctx, schema, doc, src, variables, seed, scenario, fault, run, sched, hz, source, out, case):
     base = {"source": src[:500], "scenario": {k: v for k, v in scenario.items() if k != 'payloads'}, "trace": sched.trace[-10:]}
     ctx.count("streams_run")
@@ -225,10 +254,20 @@ def judge(ctx, schema, doc, src, variables, seed, scenario, fault, run, sched, h
             ctx.violation("creation-failure-not-a-single-errors-only-result", {**base, "kind": out['kind'], "result": None if r is None else json.dumps(r.formatted, default=repr)[:300]}, case)
         elif source.started:
             ctx.violation("source-started-although-creation-failed", base, case)
+        else:
+            # the error belongs to the root field: its path, if any, is that field's response key
+            key = root_response_key(doc)
+            path = r.errors[0].path
+            if path is not None and key is not None and list(path) != [key]:
+                ctx.violation("creation-failure-error-path", {**base, "path": list(path), "root_response_key": key}, case)
         return
     if out['kind'] != 'stream':
         ctx.violation("no-response-stream", {**base, "result": json.dumps(out['result'].formatted, default=repr)[:300] if out['result'] else None}, case)
         return
+    if hz.wrong_root:
+        ctx.violation("resolver-sees-another-root-value", {**base, "event": hz.wrong_root[0][0], "seen": hz.wrong_root[0][1], "at": hz.wrong_root[0][2]}, case)
+        return
+    ctx.count("root_values_seen_by_resolvers_checked")
     n = len(scenario['payloads'])
     fail_at = scenario.get('fail_at')
     close_after = scenario.get('close_after')
